@@ -62,6 +62,15 @@ CHECKS += [
     },
 ]
 
+CHECKS += [
+    {
+        "property_id": "C09", "engine": "symx+crosshair", "category": "model_checking",
+        "technique": "bounded symbolic execution of the five rewrites on fork-generated circuits with symbolic parameters + z3 (U_full before == after); CrossHair for the swap-dictionary algebra",
+        "text": "For every value of all component parameters, on fork-generated 4-mode programs (all component kinds, swap-heavy prefixes, plain/heralded/nested groups): each of unpack_groups, compress_mode_swaps, remove_non_adjacent_bs, copy, copy(freeze) and every ordered pair of them leaves U_full, heralds and mode counts unchanged, meets its structural postcondition (no group / no non-adjacent beam splitter at any depth / no growth) and shares no component object with the original; combine_mode_swap_dicts composes permutations and convert_non_adj_beamsplitters conjugates by inverse swaps for all mode pairs within the bound.",
+        "design_ref": "DESIGN.md section 4 C09", "note": SYMX_NOTE + " " + XH_NOTE,
+    },
+]
+
 _TODO = "check not built yet in this round; see DESIGN.md section 4 for the plan"
 NOT_APPLICABLE = [
     {"property_id": f"C{i:02d}", "reason": _TODO} for i in range(2, 20) if f"C{i:02d}" not in {c["property_id"] for c in CHECKS}
